@@ -73,6 +73,8 @@ func execute(sc *Scenario, keepLog bool) (res *Result) {
 			runWrap(sc, res, keepLog)
 		case sc.Stream != nil:
 			runStream(sc, res, keepLog)
+		case sc.FB != nil:
+			runFileBlank(sc, res, keepLog)
 		case sc.Ez != nil:
 			runEz(sc, res, keepLog)
 		case sc.Plain != nil && sc.Plain.Values:
